@@ -12,8 +12,8 @@
    Node types of the emitted graph are computed as Graph::add_node does, by type inference
    (Graph/Typing.v [infer], tied to the code by C09).
 
-   Fragment: the operations of [mpc_mirrored_op] over types built from scalars, arrays and tuples
-   ([ty_simple]).  Operations the compiler itself rejects are answered with [Err] like the code;
+   Fragment: the operations of [mpc_mirrored_op] (everything compile_to_mpc_graph accepts except
+   MixedMultiply, Truncate, A2B, B2A, Join, ApplyPermutation, Sort) over all types.  Operations the compiler itself rejects are answered with [Err] like the code;
    operations the compiler accepts but this file does not mirror make [mpc_mirrored] false (the tie
    feeds only graphs with [mpc_mirrored = true], and checks it).  Definitions only. *)
 From CC Require Import Base.Prelude Base.Scalar Base.Ty Base.Shape Graph.Value Graph.IR Graph.Eval Graph.Typing.
@@ -37,20 +37,11 @@ Fixpoint mapS {A B S : Type} (f : A -> S -> result (S * B)) (l : list A) (s : S)
 Definition mpc_mirrored_op (o : op) : bool :=
   match o with
   | OMixedMultiply | OTruncate _ | OA2B | OB2A _ | OJoin _ _ | OJoinWithColumnMasks _ _
-  | OApplyPermutation _ | OSort _ | OArrayToVector | OVectorToArray | ONamedTupleGet _
-  | OCreateNamedTuple _ | OCreateVector _ | OVectorGet | OZip | ORepeat _ => false
+  | OApplyPermutation _ | OSort _ => false
   | _ => true
   end.
-Fixpoint ty_simple (t : ty) : bool :=
-  match t with
-  | TScalar _ | TArray _ _ => true
-  | TTuple ts => forallb ty_simple ts
-  | _ => false
-  end.
-Definition op_ty_simple (o : op) : bool :=
-  match o with OInput t | OZeros t | OOnes t | OReshape t | OConstant t _ => ty_simple t | _ => true end.
 Definition mpc_mirrored (nodes : list node) : bool :=
-  forallb (fun nd => mpc_mirrored_op (n_op nd) && op_ty_simple (n_op nd) && ty_simple (n_ty nd)) nodes.
+  forallb (fun nd => mpc_mirrored_op (n_op nd)) nodes.
 
 (* ---------- mpc_compiler.rs:59 is_one_node_private, :68 are_all_nodes_private ---------- *)
 Definition is_one_node_private (deps : list Z) (priv : list Z) : bool := existsb (fun d => mem d priv) deps.
@@ -71,12 +62,19 @@ Definition ppa_step (i : Z) (nd : node) (st : list Z * bool * list bool) : resul
       | [] => Panic                                           (* is_input_private[input_id] *)
       | b :: fl => Ok (if b then set_insert i priv else priv, mul, fl)
       end
-  | OAdd | OSubtract | OMultiply | ODot | OMatmul | OGemm _ _ | OPermuteAxes _ | OTupleGet _
-  | OGetSlice _ | OReshape _ | OSum _ | OCumSum _ | OGet _ | OCreateTuple | OStack _ | OConcatenate _ =>
+  | OAdd | OSubtract | OMultiply | ODot | OMatmul | OGemm _ _ | OPermuteAxes _ | OArrayToVector
+  | OTupleGet _ | ONamedTupleGet _ | OVectorToArray | OGetSlice _ | OReshape _ | OSum _ | OCumSum _
+  | OGet _ | OCreateTuple | OCreateNamedTuple _ | OCreateVector _ | OStack _ | OConcatenate _ | OZip
+  | ORepeat _ =>
       let priv' := if is_one_node_private deps priv then set_insert i priv else priv in
       let mul' := mul || (is_bilinear_all_private_op (n_op nd) && are_all_nodes_private deps priv') in
       Ok (priv', mul', flags)
   | OConstant _ _ | OZeros _ | OOnes _ => Ok st
+  | OVectorGet =>                                              (* :326 *)
+      let* d0 := znth deps 0 in
+      let* d1 := znth deps 1 in
+      if mem d1 priv then Err                                  (* VectorGet can't have a private index *)
+      else Ok (if mem d0 priv then set_insert i priv else priv, mul, flags)
   | _ => Err                                                  (* rejected, or not mirrored *)
   end.
 
@@ -141,7 +139,9 @@ Definition cgr_step (nodes : list node) (priv : list Z) (i : Z) (nd : node) (c :
   match n_op nd with
   | OInput _ => Ok c
   | OAdd | OSubtract | OSum _ | OCumSum _ | OGet _ | OStack _ | OConcatenate _ | OReshape _
-  | OPermuteAxes _ | OTupleGet _ | OCreateTuple => local_operation_handler nodes i nd c
+  | OPermuteAxes _ | OZip | ORepeat _ | OTupleGet _ | OCreateNamedTuple _ | ONamedTupleGet _
+  | OVectorToArray | OVectorGet | OCreateTuple | OArrayToVector | OCreateVector _ =>
+      local_operation_handler nodes i nd c
   | OMultiply | ODot | OMatmul | OGemm _ _ =>
       if forallb (fun d => mem d priv) (n_deps nd) then
         let c' := ensure_dependencies_are_reshared nd c in
@@ -315,6 +315,18 @@ Fixpoint share_vec (priv : list Z) (i : Z) (olds news : list Z) (out : list node
       end
   end.
 
+(* the dependencies of share i, :430-455: VectorGet takes share i of the vector and the public index *)
+Definition op_shares (priv : list Z) (o : op) (i : Z) (olds news : list Z) (out : list node)
+  : result (list node * list Z) :=
+  match o with
+  | OVectorGet =>
+      let* d0 := znth news 0 in
+      let* (out1, s) := emit (OTupleGet i) [d0] [] out in
+      let* d1 := znth news 1 in
+      Ok (out1, [s; d1])
+  | _ => share_vec priv i olds news out
+  end.
+
 Definition apply_op (priv : list Z) (node_to_be_private : Z) (o : op) (news olds : list Z) (out : list node)
   : result (list node * Z) :=
   if negb (mem node_to_be_private priv) then emit o news [] out else
@@ -322,7 +334,7 @@ Definition apply_op (priv : list Z) (node_to_be_private : Z) (o : op) (news olds
   | OInput t => emit (OInput (TTuple [t; t; t])) [] [] out
   | _ =>
       let* (out1, result_shares) :=
-        mapS (fun i out => let* (out', share) := share_vec priv i olds news out in emit o share [] out')
+        mapS (fun i out => let* (out', share) := op_shares priv o i olds news out in emit o share [] out')
              parties out in
       emit OCreateTuple result_shares [] out1
   end.
@@ -348,7 +360,32 @@ Fixpoint generate_zero_shares (t : ty) (prf_keys : list Z) (out : list node) {st
            end) ts out in
       mapS (fun party out => let* el := mapM (fun s => znth s party) subs in emit OCreateTuple el [] out)
            parties out1
-  | _ => Err                                                 (* Vector / NamedTuple: not mirrored *)
+  | TVector n et =>                                          (* :142; node_to_share = None: no index constants *)
+      let* (out1, subs) :=
+        (fix rep (k : nat) (out : list node) : result (list node * list (list Z)) :=
+           match k with
+           | O => Ok (out, [])
+           | S k' =>
+               let* (out', s) := generate_zero_shares et prf_keys out in
+               let* (out'', ss) := rep k' out' in
+               Ok (out'', s :: ss)
+           end) (Z.to_nat n) out in
+      mapS (fun party out => let* el := mapM (fun s => znth s party) subs in emit (OCreateVector et) el [] out)
+           parties out1
+  | TNamed fs =>                                             (* :169 *)
+      let* (out1, subs) :=
+        (fix go (fs : list (string * ty)) (out : list node) : result (list node * list (list Z)) :=
+           match fs with
+           | [] => Ok (out, [])
+           | f :: r =>
+               let* (out', s) := generate_zero_shares (snd f) prf_keys out in
+               let* (out'', ss) := go r out' in
+               Ok (out'', s :: ss)
+           end) fs out in
+      mapS (fun party out =>
+              let* el := mapM (fun s => znth s party) subs in
+              emit (OCreateNamedTuple (map fst fs)) el [] out)
+           parties out1
   end.
 
 (* mpc_compiler.rs:198 get_node_shares / :212 get_zero_shares *)
@@ -377,7 +414,31 @@ Fixpoint sum_shares (t : ty) (shares : list Z) (out : list node) {struct t} : re
                Ok (out3, rv :: rest)
            end) ts 0 out in
       emit OCreateTuple revealed [] out1
-  | _ => Err                                                 (* Vector / NamedTuple: not mirrored *)
+  | TVector n et =>                                          (* :890 *)
+      let* (out1, revealed) :=
+        (fix rep (k : nat) (i : Z) (out : list node) : result (list node * list Z) :=
+           match k with
+           | O => Ok (out, [])
+           | S k' =>
+               let* (out0, i_node) := emit (OConstant (TScalar U64) (VArr [i])) [] [] out in
+               let* (out1, sub_shares) := mapS (fun share out => emit OVectorGet [share; i_node] [] out) shares out0 in
+               let* (out2, rv) := sum_shares et sub_shares out1 in
+               let* (out3, rest) := rep k' (i + 1) out2 in
+               Ok (out3, rv :: rest)
+           end) (Z.to_nat n) 0 out in
+      emit (OCreateVector et) revealed [] out1
+  | TNamed fs =>                                             (* :904 *)
+      let* (out1, revealed) :=
+        (fix go (fs : list (string * ty)) (out : list node) : result (list node * list Z) :=
+           match fs with
+           | [] => Ok (out, [])
+           | f :: r =>
+               let* (out1, sub_shares) := mapS (fun share out => emit (ONamedTupleGet (fst f)) [share] [] out) shares out in
+               let* (out2, rv) := sum_shares (snd f) sub_shares out1 in
+               let* (out3, rest) := go r out2 in
+               Ok (out3, rv :: rest)
+           end) fs out in
+      emit (OCreateNamedTuple (map fst fs)) revealed [] out1
   end.
 
 (* .unwrap() of a Result *)
@@ -427,11 +488,16 @@ Definition compile_node (priv resh : list Z) (prf_keys_mul : option Z) (i : Z) (
           end
         else emit_gadget (GBil o) [a; b] out
     | OConstant _ _ | OZeros _ | OOnes _ => emit o [] [] out
-    | OPermuteAxes _ | OTupleGet _ | OGetSlice _ | OReshape _ | OSum _ | OCumSum _ | OGet _ =>
+    | OPermuteAxes _ | OArrayToVector | OVectorToArray | OTupleGet _ | ONamedTupleGet _ | OGetSlice _
+    | OReshape _ | OSum _ | OCumSum _ | OGet _ | ORepeat _ =>
         let* d0 := znth deps 0 in
         let* a := znth omap d0 in
         apply_op priv d0 o [a] deps out
-    | OCreateTuple | OStack _ | OConcatenate _ =>
+    | OVectorGet =>                                            (* :683 *)
+        let* d0 := znth deps 0 in let* d1 := znth deps 1 in
+        let* a := znth omap d0 in let* b := znth omap d1 in
+        apply_op priv d0 o [a; b] [] out
+    | OCreateTuple | OCreateNamedTuple _ | OCreateVector _ | OStack _ | OConcatenate _ | OZip =>
         let* news := mapM (fun d => znth omap d) deps in
         apply_op priv i o news deps out
     | _ => Err
